@@ -39,6 +39,8 @@ def jobs(tier, seed):
         "bg-feature+rule": [F([R([S(2)], bg=1)], bg=1)],
         "row": [F([O(2, [(1, [])])], bg=1)],
         "wip": [F([S(3, tags=["wip"])])],
+        "wip-feature-row": [F([O(2, [(1, [])])], tags=["wip"], bg=1)],
+        "wip-rule": [F([R([S(2)], tags=["wip"], bg=1)])],
         "rule-row": [F([R([O(1, [(1, [])])], bg=1)], bg=1)],
         "rule-row-param-bg": [F([R([O(1, [(2, [])]), S(1)], bg=1, bgp=True)], bg=1)],
         "row-param-feature-bg": [F([O(1, [(2, [])])], bg=1, bgp=True)],
@@ -48,7 +50,7 @@ def jobs(tier, seed):
             "plain5": [F([S(5)])],
             "bg2+rule2+2": [F([R([S(2)], bg=2)], bg=2)],
             "two-share-bg-param": [F([S(1), R([S(1), O(1, [(2, [])])], bg=1, bgp=True)], bg=1)],
-            "wip-rule": [F([R([S(3)], tags=["wip"], bg=1)])],
+            "wip-rule3": [F([R([S(3)], tags=["wip"], bg=1)])],
         })
     for name, sh in shapes.items():
         opts = {"dry_run": "sym"} if "param" not in name else {"out_dom": {"*": [0, 2]}}
